@@ -48,13 +48,13 @@ Qed.
     client is removed, addLease cannot fail: in reachable states
     UpdateStaticLease never returns after a change without storing. *)
 Lemma static_update_no_late_failure c mac ip host s fi found h s1 :
-  FullInv c s ->
+  FullInv c s -> live mac = true ->
   find_lease mac (leases s) = Some (fi, found) ->
   validate_static c mac ip host s = Some h ->
   rm_lease c (l_ip found) (l_mac found) (l_host found) s = Some s1 ->
   exists s2, add_lease c (Lease ip mac h true exp_zero) s1 = Some s2.
 Proof.
-  intros [I H] Ef Ev Er.
+  intros [I H] Hlive Ef Ev Er.
   apply find_index_some in Ef as [Efi Efm]. cbn in Efm. apply N.eqb_eq in Efm.
   destruct (validate_static_host _ _ _ _ _ _ Ev) as [Hsub Hh].
   apply add_lease_ok; [exact Hsub|]. cbn [l_host].
@@ -64,7 +64,9 @@ Proof.
   destruct Hh as [Hn|(dip & d & Ehd & Hd & Edi & Edm)].
   - rewrite hupd_eq. destruct (eqb_bytes h (l_host l)); auto.
   - (* the entry for [h] points to the client's own lease, which is the one removed *)
-    assert (d = l) by (eapply (one_holder c s I); eauto; right; congruence). subst d.
+    assert (d = l).
+    { eapply (one_holder c s I); eauto. right. split; [congruence|]. rewrite Edm. exact Hlive. }
+    subst d.
     apply H in Ehd as [_ Hin]. apply in_map_iff in Hin as (l' & E & Hl'). inversion E; subst.
     assert (l' = l) by (eapply (one_holder c s I); eauto). subst l'.
     apply hupd_same.
@@ -93,6 +95,7 @@ Proof.
   unfold load.
   assert (H : forall d' s, disk (fold_left (load_step c) d' s) = disk s).
   { induction d' as [|l d' IH]; intros s; cbn; auto. rewrite IH. unfold load_step.
+    destruct (valid_mac (l_mac l)); auto.
     destruct (add_lease c (reload_lease l) s) eqn:E; auto. apply add_lease_some in E; tauto. }
   rewrite H. reflexivity.
 Qed.
@@ -110,14 +113,15 @@ Proof.
   rewrite load_fold_all; cbn [leases ix hidx empty_index app]; auto.
   - unfold HInv; cbn. intros h ip. split; [discriminate|intros [_ []]].
   - intros l Hl. eapply Permutation_in in Hl; [|exact P].
-    apply in_map_iff in Hl as (l0 & <- & Hl0). pose proof I as [[_ _ C D] _ _].
-    split.
+    apply in_map_iff in Hl as (l0 & <- & Hl0). pose proof I as [[_ _ C D E] _ _].
+    split; [|split].
     + unfold reload_lease. cbn [db_lease set_exp l_static l_host l_ip].
       destruct (l_static l0) eqn:Es; cbn [negb andb]; auto.
       destruct (is_nil (l_host l0)) eqn:En; cbn [negb]; auto.
       rewrite (St l0 Hl0 Es); [destruct l0; reflexivity|].
-      intros E. rewrite E in En. discriminate.
+      intros E'. rewrite E' in En. discriminate.
     + unfold range_ok. cbn. destruct (l_static l0) eqn:Es; [apply D|apply C]; auto.
+    + exact (mac_ok_valid l0 (E l0 Hl0)).
   - eapply Permutation_NoDup; [apply Permutation_sym, Permutation_map, P|].
     fold (ips (map db_lease (leases s))). rewrite ips_db. apply I.
   - apply HInv_unique with (hi := hidx (ix s)).
@@ -134,40 +138,44 @@ Proof.
   rewrite map_map. erewrite map_ext; [reflexivity|]. intros l. symmetry. apply db_lease_idem.
 Qed.
 
-Theorem step_current c s now o :
-  FullInv c s -> NamesStable (leases s) -> FileCurrent s -> FileCurrent (fst (step c s now o)).
+Theorem step_current c s now busy o :
+  FullInv c s -> op_ok o -> NamesStable (leases s) -> FileCurrent s ->
+  FileCurrent (fst (step c s now busy o)).
 Proof.
-  intros F St P. destruct o; cbn [step fst]; auto.
+  intros F Ho St P. destruct o; cbn [step fst]; cbn in Ho; auto.
   - unfold discover. destruct (find_lease mac (leases s)) as [[? ?]|]; [apply store_current|].
-    destruct (reserve c now mac s) as [s' r]; destruct r; apply store_current.
+    destruct (allocate _ c now busy mac s) as [s' r]; destruct r; apply store_current.
   - unfold request. destruct (request_lease c mac sid reqip ciaddr s) as [r|[i l]]; cbn; auto.
     destruct (l_static l); apply store_current.
   - unfold decline. destruct (find_index _ (leases s)) as [[? old]|]; [|apply store_current].
     destruct (rm_dynamic_lease c _ _ _ s) as [s1 e]. destruct e; [apply store_current|].
-    destruct (reserve c now mac s1) as [s2 r]; destruct r; apply store_current.
+    destruct (allocate _ c now busy mac s1) as [s2 r]; destruct r; apply store_current.
   - unfold release. destruct (find_index _ (leases s)) as [[? old]|]; [|apply store_current].
     destruct (rm_dynamic_lease c _ _ _ s) as [s1 e]. destruct e; apply store_current.
   - unfold static_add. destruct (ip =? c_gw c); cbn; auto.
+    destruct (valid_mac mac); cbn; auto.
     destruct (if is_nil host then Some [] else _) as [h|]; cbn; auto.
     destruct (rm_dynamic_lease c mac ip h s) as [s1 e]. destruct e; [apply store_current|].
     destruct (add_lease c _ s1); apply store_current.
   - unfold static_update. destruct (find_lease mac (leases s)) as [[fi found]|] eqn:Ef; cbn; auto.
     destruct (validate_static c mac ip host s) as [h|] eqn:Ev; cbn; auto.
     destruct (rm_lease c _ _ _ s) as [s1|] eqn:Er; cbn; auto.
-    destruct (static_update_no_late_failure _ _ _ _ _ _ _ _ _ F Ef Ev Er) as (s2 & ->).
+    destruct (static_update_no_late_failure _ _ _ _ _ _ _ _ _ F Ho Ef Ev Er) as (s2 & ->).
     apply store_current.
-  - unfold static_remove. destruct (rm_lease c ip mac host s) as [s1|]; cbn; auto. apply store_current.
+  - unfold static_remove. destruct (valid_mac mac); cbn; auto.
+    destruct (rm_lease c ip mac host s) as [s1|]; cbn; auto. apply store_current.
   - apply restart_current; auto.
 Qed.
 
 (** After every operation of any history (hence after every prefix of it). *)
-Theorem file_current_reachable c h : FileCurrent (run c h empty_state).
+Theorem file_current_reachable c h : hist_ok h -> FileCurrent (run c h empty_state).
 Proof.
-  assert (G : forall s, FullInv c s -> NamesStable (leases s) -> FileCurrent s ->
+  assert (G : forall s, hist_ok h -> FullInv c s -> NamesStable (leases s) -> FileCurrent s ->
                         FileCurrent (run c h s)).
-  { unfold run. induction h as [|[now o] h IH]; intros s F St P; cbn; auto.
-    apply IH; [apply step_full|apply step_names|apply step_current]; auto. }
-  apply G; [apply empty_state_full|intros l []|constructor].
+  { unfold run. induction h as [|[[now busy] o] h IH]; intros s Hh F St P; cbn; auto.
+    inversion Hh; subst.
+    apply IH; [assumption|apply step_full|apply step_names|apply step_current]; auto. }
+  intros Hh. apply G; [assumption|apply empty_state_full|intros l []|constructor].
 Qed.
 
 (** * Static leases change only through the static-lease operations *)
@@ -248,6 +256,33 @@ Proof.
     eexists. split; [apply nth_error_update_nth; eauto|exact Ep].
 Qed.
 
+Lemma blocklist_statics c now i s l :
+  nth_error (leases s) i = Some l -> l_static l = false ->
+  statics (leases (blocklist c now i s)) = statics (leases s).
+Proof.
+  intros E Hs. unfold blocklist. rewrite E. cbn [leases].
+  eapply statics_update_dynamic; [exact E|exact Hs|exact Hs].
+Qed.
+
+(** allocateLease leaves the reservations alone and hands out a dynamic lease. *)
+Lemma allocate_statics c now busy mac : forall fuel s,
+  statics (leases (fst (allocate fuel c now busy mac s))) = statics (leases s) /\
+  (forall i, snd (allocate fuel c now busy mac s) = RsAt i ->
+     exists l, nth_error (leases (fst (allocate fuel c now busy mac s))) i = Some l /\
+               l_static l = false).
+Proof.
+  induction fuel as [|f IH]; intros s; cbn [allocate]; [split; [reflexivity|discriminate]|].
+  pose proof (reserve_statics c now mac s) as R1.
+  pose proof (reserve_at_dynamic c now mac s) as R2.
+  destruct (reserve c now mac s) as [s1 r]; cbn [fst snd] in *.
+  destruct r; try (split; [exact R1|discriminate]).
+  destruct (R2 i eq_refl) as (l & El & Els).
+  destruct (mem_ip (ip_at s1 i) busy).
+  - destruct (IH (blocklist c now i s1)) as [A B]. split; auto.
+    rewrite A, (blocklist_statics c now i s1 l El Els). exact R1.
+  - cbn [fst snd]. split; [exact R1|]. intros j E; inversion E; subst. eauto.
+Qed.
+
 Lemma commit_statics c now i host s l :
   nth_error (leases s) i = Some l -> l_static l = false ->
   statics (leases (commit c now i host s)) = statics (leases s).
@@ -275,14 +310,14 @@ Qed.
 
 (** DISCOVER, REQUEST, DECLINE, RELEASE and the passing of time leave the
     reservations exactly as they are, in any state. *)
-Theorem message_keeps_statics c s now o :
+Theorem message_keeps_statics c s now busy o :
   static_op o = false -> o <> ORestart ->
-  statics (leases (fst (step c s now o))) = statics (leases s).
+  statics (leases (fst (step c s now busy o))) = statics (leases s).
 Proof.
   intros Ho Hr. destruct o; try discriminate; try congruence; cbn [step fst].
   - unfold discover. destruct (find_lease mac (leases s)) as [[? ?]|]; [reflexivity|].
-    pose proof (reserve_statics c now mac s) as R.
-    destruct (reserve c now mac s) as [s' r]; destruct r; exact R.
+    pose proof (proj1 (allocate_statics c now busy mac (alloc_fuel c s) s)) as R.
+    destruct (allocate _ c now busy mac s) as [s' r]; destruct r; exact R.
   - unfold request. destruct (request_lease c mac sid reqip ciaddr s) as [r|[i l]] eqn:Er; cbn [fst]; auto.
     destruct (l_static l) eqn:Es; cbn [fst store leases]; auto.
     eapply commit_statics; eauto. eapply request_lease_at; eauto.
@@ -290,9 +325,8 @@ Proof.
     pose proof (rm_dynamic_statics c (l_mac old) (l_ip old) (l_host old) s) as R1.
     destruct (rm_dynamic_lease c _ _ _ s) as [s1 e]. cbn [fst] in R1.
     destruct e; [exact R1|].
-    pose proof (reserve_statics c now mac s1) as R2.
-    pose proof (reserve_at_dynamic c now mac s1) as R3.
-    destruct (reserve c now mac s1) as [s2 r]. cbn [fst snd] in *.
+    destruct (allocate_statics c now busy mac (alloc_fuel c s1) s1) as [R2 R3].
+    destruct (allocate _ c now busy mac s1) as [s2 r]. cbn [fst snd] in *.
     destruct r; cbn [fst store leases]; try congruence.
     destruct (R3 _ eq_refl) as (l & El & Els).
     rewrite (commit_statics c now i (l_host old) s2 l El Els). congruence.
@@ -326,15 +360,15 @@ Proof. destruct o; auto; right; discriminate. Qed.
 (** In every reachable state, an operation that is not one of the
     static-lease operations (a restart included) leaves the reservations as
     they are. *)
-Theorem static_only_via_api c h now o :
+Theorem static_only_via_api c h now busy o : hist_ok h ->
   let s := run c h empty_state in
   static_op o = false ->
-  Permutation (statics (leases (fst (step c s now o)))) (statics (leases s)).
+  Permutation (statics (leases (fst (step c s now busy o)))) (statics (leases s)).
 Proof.
-  intros s Ho. destruct (op_eq_restart o) as [->|Hr].
+  intros Hh s Ho. destruct (op_eq_restart o) as [->|Hr].
   - cbn [step fst]. unfold restart.
-    pose proof (full_inv_reachable c h) as F. pose proof (names_stable_reachable c h) as St.
-    pose proof (file_current_reachable c h) as P. fold s in F, St, P.
+    pose proof (full_inv_reachable c h Hh) as F. pose proof (names_stable_reachable c h) as St.
+    pose proof (file_current_reachable c h Hh) as P. fold s in F, St, P.
     rewrite (load_current_leases c s (disk s) F St P).
     eapply Permutation_trans; [apply statics_perm, P|]. rewrite statics_db. apply Permutation_refl.
   - rewrite message_keeps_statics; auto.
